@@ -118,7 +118,8 @@ theorem stdin_spool_complete (env : PEnv) (input : Bytes) (w : World) (plan : Pl
     rw [hmd]
     exact hl
 
-/-- What exit status 0 of a stdin run means (see `Props/C02`). -/
+/-- What exit status 0 of a stdin run means (see `Props/C02`).  The verdict is the pure `stdinVerdict`: the statement is
+for rule trees that ask the operating system nothing (`asksFree`). -/
 def Delivered (env : PEnv) (orc : EvalOracles) (expr : Expr) (input : Bytes) (wf : World) : Prop :=
   ∃ name0 fl, (∃ k, name0 = World.gennameName env none k) ∧ flagsParse name0 = some fl ∧
     match World.stdinVerdict env orc expr input (World.spoolPath env ++ [47] ++ name0) fl with
@@ -131,9 +132,9 @@ def Delivered (env : PEnv) (orc : EvalOracles) (expr : Expr) (input : Bytes) (wf
           f.durable ∈ [input, (messageWrite m').1]
 
 theorem delivered_of_done {S : World.Spool} {env : PEnv} {orc : EvalOracles} {expr : Expr} {input name0 : Bytes} {w' : World}
-    (hS : S.sp = World.spoolPath env) (hk : ∃ k, name0 = World.gennameName env none k)
+    (hS : S.sp = World.spoolPath env) (hk : ∃ k, name0 = World.gennameName env none k) (hfree : asksFree expr = true)
     (h : World.Done S env orc expr input name0 w') : Delivered env orc expr input w' := by
-  obtain ⟨fl, hfl, hv⟩ := h
+  obtain ⟨fl, hfl, hv⟩ := h hfree
   refine ⟨name0, fl, hk, hfl, ?_⟩
   rw [hS] at hv
   generalize World.stdinVerdict env orc expr input (World.spoolPath env ++ [47] ++ name0) fl = v at hv ⊢
@@ -149,7 +150,8 @@ theorem delivered_of_done {S : World.Spool} {env : PEnv} {orc : EvalOracles} {ex
 outside the spool (or no rule matched / the rules do not deliver). -/
 theorem stdin_exit0 (env : PEnv) (orc : EvalOracles) (conf : List ConfBlock) (files : Files) (input : Bytes) (expr : Expr)
     (w : World) (plan : Plan) (hm : env.stdinMode = true) (hs : env.syntaxOnly = false)
-    (hc : World.stdinExprs conf = [expr]) (hin : World.StdinIs w input) (hfresh : World.SpoolFresh env w) :
+    (hc : World.stdinExprs conf = [expr]) (hin : World.StdinIs w input) (hfresh : World.SpoolFresh env w)
+    (hfree : asksFree expr = true) :
     let r := runPlan plan (mainP env orc true conf files input) w 0 []
     r.1.1 = 0 → Delivered env orc expr input r.2.1 := by
   have hmain : World.wp (fun _ => True) (mainP env orc true conf files input)
@@ -176,11 +178,11 @@ theorem stdin_exit0 (env : PEnv) (orc : EvalOracles) (conf : List ConfBlock) (fi
         cases this
       | false =>
         obtain ⟨S, name0, hS, hmd, hk, hobj, hd⟩ := hdone herr
-        obtain ⟨fl, hfl, hv⟩ := hd
+        obtain ⟨fl, hfl, hv⟩ := hd hfree
         rw [hmd]
         refine World.wp_bind_mono (World.DoneV.closeStdin hv hobj) ?_
         intro _ w2 hv2 _
-        exact delivered_of_done hS hk ⟨fl, hfl, hv2⟩
+        exact delivered_of_done hS hk hfree (fun _ => ⟨fl, hfl, hv2⟩)
   have := (World.wp_sound plan hmain 0).2
   show (runPlan plan (mainP env orc true conf files input) w 0 []).1.1 = 0 →
     Delivered env orc expr input (runPlan plan (mainP env orc true conf files input) w 0 []).2.1
